@@ -87,3 +87,36 @@ func VerifC04_FetchFailover() {
 		verif_Assert(s.rootURL.Host == "b.example", "after failover the working address is kept")
 	}
 }
+
+// C04 (d'): a legacy publisher (no IPNI path prefix) reached over plain HTTP at
+// two addresses. After the legacy location was learned on the first address,
+// that address goes down: the fetch fails over to the second address at the
+// legacy location too, and later fetches keep working.
+func VerifC04_FailoverAfterLegacyLearned() {
+	downA := false
+	dropKind := verif_Choose("dropKind", 0, 1)
+	rt := &vRT{fn: func(req *http.Request) (*http.Response, error) {
+		if req.URL.Host == "a.example" && downA {
+			if dropKind == 0 {
+				return nil, context.DeadlineExceeded
+			}
+			return nil, network.ErrReset
+		}
+		if req.URL.Path == "/head" {
+			return vResp(http.StatusOK, []byte("x")), nil
+		}
+		return vResp(http.StatusNotFound, nil), nil
+	}}
+	ub := vURL("http://b.example/ipni/v1/ad")
+	s := &Syncer{client: &http.Client{Transport: rt}, rootURL: vURL("http://a.example/ipni/v1/ad"), urls: []*url.URL{&ub}, sync: &Sync{}, plainHTTP: true}
+	got := false
+	err := s.fetch(context.Background(), "head", func(io.Reader) error { got = true; return nil })
+	verif_Assert(err == nil && got, "a legacy publisher is found at its no-path location")
+	downA = true
+	for i := 0; i < 2; i++ {
+		got = false
+		err = s.fetch(context.Background(), "head", func(io.Reader) error { got = true; return nil })
+		verif_Reach("fetched after the first address went down")
+		verif_Assert(err == nil && got, "when the address in use goes down the other address of the same legacy publisher answers")
+	}
+}
